@@ -290,7 +290,9 @@ impl From<IotaDID> for CoreDID {
 
 impl From<IotaDID> for String {
   fn from(did: IotaDID) -> Self {
-    did.into_string()
+    // `DID::into_string` is implemented through `Into<String>`, i.e. through this very function:
+    // delegating to it recursed until the stack overflowed. Convert the wrapped `CoreDID` instead.
+    did.0.into()
   }
 }
 
